@@ -872,7 +872,7 @@ def make_adapter_lock_pub(
 
         # decrypt adapter sig #
         @sa @R @t decrypt_adapter_sig
-        concat
+        concat{'' if int(sigflags, 16) == 0 else f' push x{sigflags} concat'}
 
         # check sig #
         push x{pubkey.hex()}
